@@ -37,6 +37,12 @@ def parseOp (fs : List String) : Option Op :=
   match fs with
   | ["tokcreate", ttl, emax, ren, now] => do
     pure (.tokCreate (← ttl.toInt?) (← emax.toInt?) (← b? ren) (← now.toInt?))
+  | ["rolecreate", ttl, emax, remax, ren, now] => do
+    -- a role token: bound by the lesser of the request's and the role's explicit maximum, at creation and at renewals
+    let e ← emax.toInt?
+    let r ← remax.toInt?
+    let m := if e > 0 ∧ (r = 0 ∨ e < r) then e else r
+    pure (.tokCreate (← ttl.toInt?) m (← b? ren) (← now.toInt?))
   | ["rootcreate", now] => do pure (.rootCreate (← now.toInt?))
   | ["reg", owner, ttl, max, ren, now] => do
     pure (.reg (← owner.toNat?) (← ttl.toInt?) (← max.toInt?) (← b? ren) (← now.toInt?))
